@@ -363,15 +363,15 @@ def _dispatch(kind, *a):
 
 def run(pid, tier, seed):
   ev = common.Evidence(pid, "other", tier, seed)
-  tmo = 120000 if tier == "quick" else 900000
+  tmo = 120000 if tier == "quick" else 600000
   tasks = [("lemma", "get_range", 1, tmo), ("lemma", "prev_next", 0, tmo)]
   if tier == "thorough":
     tasks.append(("lemma", "get_range", 2, tmo))
   shapes = [(ne, nk) for ne in (0, 1, 2, 3) for nk in (1, 2)] if tier == "quick" else [(ne, nk) for ne in (0, 1, 2, 3) for nk in (1, 2, 3)]
   for sh in shapes:
-    tasks.append(("ins", sh, seed, 60.0 if tier == "quick" else 600.0))
+    tasks.append(("ins", sh, seed, 60.0 if tier == "quick" else 300.0))
   for count in (range(1, 7) if tier == "quick" else range(1, 13)):
-    tasks.append(("ins", ("dense", count), seed, 60.0 if tier == "quick" else 600.0))
+    tasks.append(("ins", ("dense", count), seed, 60.0 if tier == "quick" else 300.0))
   for fx in ("basic", "views"):
     for k in ("UpdateRecord", "BulkUpdateRecord", "AddRecord", "BulkAddRecord", "RemoveRecord", "AddTable", "Summary"):
       tasks.append(("bundle", fx, k, "small" if tier == "quick" else "full"))
